@@ -1094,7 +1094,9 @@ func tmCallSites(fset *token.FileSet, repo string) (string, error) {
 	if runFn != nil {
 		for _, st := range runFn.Body.List {
 			switch normStmt(fset, st) {
-			case normText("rr.filename = rr.ctx.Fset.Position(f.Pos()).Filename"), normText("rr.filterParams.filename = rr.filename"):
+			// rr.filename (the file whose bytes are read) is the file that was parsed; the name the predicates see is the
+			// position's file name (after //line directives), as it always was
+			case normText("rr.filename = rr.ctx.Fset.PositionFor(f.Pos(), false).Filename"), normText("rr.filterParams.filename = rr.ctx.Fset.Position(f.Pos()).Filename"):
 				nameTop++
 			}
 		}
